@@ -31,6 +31,8 @@ static uint64_t g_serial, g_total_allocs, g_total_faults;
 static thread_local int t_in_sut = 0;
 struct OpAlloc { int tag, fk, fm, count, fired; };
 static thread_local OpAlloc t_op = {0, 0, 0, 0, 0};
+static thread_local int t_suspend = 0;
+void sim_fault_suspend(bool on) { t_suspend = on ? 1 : 0; }
 
 static std::unordered_map<void *, LedRec> &led() { if (!g_led) g_led = new std::unordered_map<void *, LedRec>(); return *g_led; }
 
@@ -59,6 +61,7 @@ size_t sim_ledger_live(std::string *detail) {
 }
 // returns true when this allocation must fail
 static bool alloc_gate() {
+    if (t_suspend) return false;      // harness bookkeeping calls into the SUT: neither counted nor failed
     t_op.count++;
     g_total_allocs++;
     if (t_op.fk > 0 && (t_op.count == t_op.fk || (t_op.fm == 2 && t_op.count > t_op.fk))) {
